@@ -268,6 +268,12 @@ fn mutate_key(k: &str, how: u8) -> String {
 }
 
 fn typed(key: &str, v: &Value, form: u8) -> ClaimSpec {
+  // the documented default of a registered text claim is the empty string: an expectation of "" may be written `XClaim::default()`
+  if v.as_str() == Some("") && form % 2 == 1 {
+    if let Some(i) = DEFAULT_KEYS.iter().take(4).position(|d| *d == key) {
+      return ClaimSpec::DefaultOf(i as u8);
+    }
+  }
   if let Value::String(s) = v {
     match key {
       "iss" => return ClaimSpec::Iss(s.clone()),
